@@ -10,7 +10,10 @@ for d in sorted(glob.glob(os.path.join(V, "seeded", "*"))):
     m = json.load(open(mp))
     runs = m.get("ran", [])
     hist = ", ".join("%s→%d" % (r["cmd"].split()[1], r["exit"]) for r in runs)
-    caught_by = sorted({r["cmd"].split()[1] for r in runs if r["exit"] == 1})
+    latest = {}
+    for r in runs:
+        latest[r["cmd"].split()[1]] = r["exit"]  # the last run of each check counts
+    caught_by = sorted(c for c, e in latest.items() if e == 1)
     first = ""
     for r in runs:
         if r["exit"] == 1:
@@ -22,7 +25,7 @@ for d in sorted(glob.glob(os.path.join(V, "seeded", "*"))):
 with open(os.path.join(V, "seeded", "INDEX.md"), "w") as f:
     f.write("# Seeded changes (written by independent sub-agents; each confirmed in a scratch worktree)\n\n")
     f.write("`confirmed` = compiles (also with -tags verif), 36 baseline tests pass 3x, demonstration fails with the patch and passes without.\n")
-    f.write("`runs` lists every time a check's quick tier was run against the patched tree (exit 0 = missed at that time, 1 = caught); a miss followed by a catch means the check was strengthened in between.\n\n")
+    f.write("`runs` lists every time a check's quick tier was run against the patched tree (exit 0 = missed at that time, 1 = caught); a miss followed by a catch means the check was strengthened in between, a catch followed by a miss that an unsound assertion was removed (DESIGN 9.7/9.8); `caught by` lists the checks whose latest run caught it.\n\n")
     f.write("| change | property | confirmed | caught by | runs (check→exit) | first violation line | what it is / what it needs (from the seeder's README) |\n|---|---|---|---|---|---|---|\n")
     for r in rows:
         f.write("| " + " | ".join(r) + " |\n")
